@@ -398,6 +398,7 @@ def adjust(pid, rng, pcfg):
             b.error_rate, b.overlap = rng.choice([0.5, 0.7]), rng.choice([3, 5])
     if pid == "C15" and b.adapters and not b.discard_trimmed and not pcfg.combinatorial:
         b.demux = True
+        b.demux_twice = rng.random() < 0.3
     return pcfg
 
 
